@@ -8,7 +8,7 @@ from ..cfg import build_cfg, calls_in, node_calls
 from ..core import Ctx, property_info, rule
 from ..exc import FuncExc, MayRaise, _handler_types
 from ..model import AnalysisError, FuncInfo, norm_text, walk_no_nested
-from ..q import A, control_deps, is_self_attr, self_attr_writes, stores, unparse
+from ..q import A, control_deps, none_cond, is_self_attr, self_attr_writes, stores, unparse
 
 P = "xsdata.formats.dataclass.parsers"
 DOCUMENTED = {"ParserError", "ConverterError", "XmlContextError", "XmlHandlerError"}
@@ -114,18 +114,16 @@ def converter_input_kind(ctx: Ctx) -> None:
     """The escape analysis assumes converters receive str: the JSON path must serialise scalars first."""
     bt = ctx.repo.func(f"{P}.dict:DictDecoder.bind_text")
     g = build_cfg(bt.node)
-    pv = [n for n in g.stmts() for c in node_calls(n) if unparse(c.func).endswith("parse_var")]
-    ser = [n.id for n in g.stmts() if isinstance(n.ast, ast.Assign) and unparse(n.ast.targets[0]) == "value"
-           and isinstance(n.ast.value, ast.Call) and unparse(n.ast.value.func) == "converter.serialize"]
-    ctx.ob("DictDecoder.bind_text: value = converter.serialize(value) dominates parse_var", bool(pv) and bool(ser) and all(g.must_pass(g.entry, p.id, ser) for p in pv),
+    from ..q import kwarg, leaves_at
+
+    pv = [(n, c) for n in g.stmts() for c in node_calls(n) if unparse(c.func).endswith("parse_var")]
+    ok = bool(pv)
+    for n, c in pv:
+        v = kwarg(c, "value")
+        leaves = leaves_at(bt, n, v) if v is not None else []
+        ok = ok and bool(leaves) and all(isinstance(x, ast.Call) and unparse(x.func) == "converter.serialize" for x in leaves)
+    ctx.ob("DictDecoder.bind_text: the value handed to parse_var is always converter.serialize(value)", ok,
            at=bt, construct="serialize before parse_var", msg="a raw JSON scalar (int, float, bool, list) would reach the converters, which assume str input")
-    for n in pv:
-        for c in node_calls(n):
-            if unparse(c.func).endswith("parse_var"):
-                from ..q import kwarg
-                v = kwarg(c, "value")
-                ctx.ob("DictDecoder.bind_text: parse_var receives the serialised value", v is not None and unparse(v) == "value", at=bt, node=c,
-                       msg="parse_var is not given the serialised value")
 
 
 def _dict_protocol_use(fn: ast.AST, name: ast.Name) -> bool:
@@ -384,7 +382,7 @@ def sibling_fallbacks(ctx: Ctx) -> None:
         raise AnalysisError("C15.R6: empty-value fall-back not found in PrimitiveNode.bind / StandardNode.bind")
     for fi, e, what in ((prim, pe, "PrimitiveNode"), (std, se, "StandardNode")):
         for k in ("",):
-            ctx.ob(f"{what}.bind: the empty fall-back applies only to a missing value of a non-nillable element", any(t == "_isNone" and pol for t, pol in e[k]) and any("nillable" in t and not pol for t, pol in e[k]), at=fi,
+            ctx.ob(f"{what}.bind: the empty fall-back applies only to a missing value of a non-nillable element", none_cond(e[k]) and any("nillable" in t and not pol for t, pol in e[k]), at=fi,
                    construct=f"{what} fallback guard", msg="fall-back replaces real values or nil elements")
     p_bytes = b"" in pe and any("bytes" in t and pol for t, pol in pe[b""]) and any("bytes" in t and not pol for t, pol in pe[""])
     ctx.ob("PrimitiveNode.bind: empty fall-back is b'' for bytes fields, '' otherwise", p_bytes, at=prim, construct="primitive bytes fallback", msg="a bytes field would receive a str")
